@@ -57,7 +57,7 @@ def _fitted_only(s, keys):
 
 
 def run_history(item):
-    """item: {adapter, cfg (index or dict), seed, history: [{op, b, knob, expect_ok}], record_model: bool}"""
+    """item: {adapter, cfg (index or dict), seed, history: [{op, b, knob, expect_ok}], record_model: bool, reuse: bool}"""
     d = _tmpdir()
     ad = _adapter(item)
     rows_c = Classes(ad.rtol, ad.atol)
@@ -68,6 +68,10 @@ def run_history(item):
     for c in item["history"]:
         op = c["op"]
         o = dict(rows=[], width=-1, ret_self=True, args_ok=True, params_ok=True, model_ok=True, tmp_ok=True, raised=False, model=0)
+        if op == "new":          # the estimator object is dropped; the next fit constructs a fresh one
+            est = None
+            steps.append({"c": c, "o": o})
+            continue
         if op == "knob":
             ks = ad.knobs
             if est is not None and ks:
@@ -80,8 +84,8 @@ def run_history(item):
             X, kw = ad.batch(c["b"], fitting=fitting)
         except TypeError:
             X, kw = ad.batch(c["b"])
-        if fitting:
-            est = ad.make()
+        if fitting and (est is None or op == "refit" or not item.get("reuse")):
+            est = ad.make()          # (with item["reuse"] a later fit / fit_transform re-fits the SAME object)
         elif est is not None and hasattr(ad, "_n") and hasattr(est, "generator_n_distributions"):
             est.generator_n_distributions = ad._n
         before_args = snap((X, kw)) if not (item.get("no_arg_snapshot") or getattr(ad, "no_arg_snapshot", False)) else None
